@@ -41,6 +41,11 @@ CHECKS = {
         technique="bounded symbolic execution of the emitted decode/access program (SymAVM/z3) on the ARC-4 model's encoding of a symbolic value, run-time index as a free 64-bit variable; SMT obligation per path pair; models replayed concretely with algosdk.abi",
         text="Input = reference encoding of a symbolic value (offsets and length prefixes concrete, payload symbolic). Program = decode() followed by an access path - every tuple member / named field, arrays at constant in-range indices, at the first out-of-range index and at a run-time index taken from a second argument, one nested step - and an observation (encode(), get(), length()). z3 proves that the logged bytes equal the component's own reference encoding for every value and every in-range run-time index, and that EVERY out-of-range index (one symbolic path covering all 2^64 values) makes the program fail; versions 5..10, both storage back-ends.",
         note="Trusted: verif/arc4/model.py, TEAL op semantics, z3. Bounds: enumerated shapes, dynamic lengths <= 2/4, run-time indices into long encodings of dynamic elements are skipped above a stated size. Known findings: out-of-range indexing of bool arrays, arrays of dynamic elements and arrays of zero-size elements does not fail."),
+    "C08": dict(
+        category="model_checking", design_ref="DESIGN.md 3/C08",
+        technique="bounded symbolic execution (SymAVM/z3) of the Router's emitted approval and clear-state programs against the dispatch table derived from the registration data; selector bytes, OnCompletion, ApplicationID and NumAppArgs symbolic; SMT obligation per (table row, program path); models replayed concretely",
+        text="For every enumerated router configuration (one method x every MethodConfig in {NEVER,CALL,CREATE,ALL}^5 in the thorough tier; bare actions x CallConfig vectors x action kinds; bare-only routers; 2-3 methods; clear-state action absent / Expr / Subroutine / ABIReturnSubroutine; versions 6..10; assemble_constants and frame-pointer settings) z3 shows for ALL calls - every 4-byte selector value and other argument lengths, NumAppArgs 0..16, OnCompletion 0..5 except ClearState, ApplicationID zero/non-zero - that handler H's tag is logged and the call approved exactly when the registration allows it and that every other call is rejected (fails or returns 0), and that the clear-state program runs exactly the given action or rejects. The contract must list exactly the registered methods. Selectors are computed here with SHA-512/256.",
+        note="Trusted: the dispatch-table reading of the registration data (verif/router.py), TEAL op semantics, z3, the ledger assumption that an approval program never runs with OnCompletion=ClearState. Bounds: <= 3 methods per router; enumerated configurations."),
     "C10": dict(
         category="model_checking", design_ref="DESIGN.md 3/C10",
         technique="translation validation of marker programs: SymAVM(emitted TEAL) vs the recipe semantics with one cell per variable, markers derived from a symbolic input, z3/term identity per path; models replayed concretely",
